@@ -630,11 +630,23 @@ type MetaInitCase struct {
 	Mask uint32 `json:"mask"`
 }
 
+func genMetaInit(t *rapid.T) MetaInitCase {
+	return MetaInitCase{Kind: rapid.SampledFrom([]string{"empty", "zeros", "prefix", "prefix", "holes", "holes", "complete", "garbage", "nobuckets", "nobuckets"}).Draw(t, "kind"),
+		Len: rapid.IntRange(1, 40000).Draw(t, "len"), Mask: rapid.Uint32().Draw(t, "mask")}
+}
+
 func TestC03MetaInit(t *testing.T) {
-	common.Run(t, "C03", "C03MetaInit", func(t *rapid.T) MetaInitCase {
-		return MetaInitCase{Kind: rapid.SampledFrom([]string{"empty", "zeros", "prefix", "prefix", "holes", "holes", "complete", "garbage", "nobuckets", "nobuckets"}).Draw(t, "kind"),
-			Len: rapid.IntRange(1, 40000).Draw(t, "len"), Mask: rapid.Uint32().Draw(t, "mask")}
-	}, func(c MetaInitCase) (res common.Result) {
+	common.Run(t, "C03", "C03MetaInit", genMetaInit, runMetaInit)
+}
+
+// TestC07MetaInit: the same leftovers judged for C07's clause that the metadata database appears under
+// its final name only complete - whatever the interrupted initialisation left under the temporary name.
+func TestC07MetaInit(t *testing.T) {
+	common.Run(t, "C07", "C07MetaInit", genMetaInit, runMetaInit)
+}
+
+func runMetaInit(c MetaInitCase) (res common.Result) {
+	{
 		// a genuine, complete tmp file as bolt writes it
 		src, err := os.MkdirTemp("", "verif-metainit-src-")
 		if err != nil {
@@ -741,7 +753,7 @@ func TestC03MetaInit(t *testing.T) {
 			res.Fail = common.Failf("effects-not-durable", "after reopen first=%d last=%d term=%d, want 500 500 3", f, l, v)
 		}
 		return
-	})
+	}
 }
 
 // ---- the metadata database cannot even be stat'ed (an I/O error below the MetaStore interface, here
